@@ -5,9 +5,7 @@ package norm
 import (
 	"fmt"
 	"reflect"
-	"strconv"
 	"strings"
-	"verif/gen"
 	"verif/jsstr"
 
 	"github.com/xjslang/xjs/ast"
@@ -181,14 +179,14 @@ func (o *opts) node(n ast.Node, sb *strings.Builder) {
 	case *ast.Identifier:
 		w("(id ", x.Value, ")")
 	case *ast.IntegerLiteral:
-		w("(num ", x.Token.Literal, ")")
+		w("(num ", jsstr.NumMeaning(x.Token.Literal), ")") // by value, not spelling
 	case *ast.FloatLiteral:
-		w("(num ", x.Token.Literal, ")")
+		w("(num ", jsstr.NumMeaning(x.Token.Literal), ")") // by value, not spelling
 	case *ast.StringLiteral:
 		w("(str ", jsstr.Meaning(x.Value), ")") // compared by meaning (UTF-16 code units), not by spelling
 	case *ast.MultiStringLiteral:
 		// the lexer decodes \` to a bare backtick; the raw form (what the generator and acorn report) escapes it
-		w("(tpl ", strconv.Quote(gen.TplRaw(strings.ReplaceAll(x.Value, "`", "\\`"))), ")")
+		w("(tpl ", jsstr.TplMeaning(strings.ReplaceAll(x.Value, "`", "\\`")), ")")
 	case *ast.BooleanLiteral:
 		if x.Value {
 			w("(true)")
